@@ -1609,6 +1609,19 @@ func (f *frame) exprMulti(e ast.Expr) ([]Value, error) {
 				if v := f.in.funcValue(fn, copyVal(rv)); v != nil {
 					return []Value{v}, nil
 				}
+			} else if sel != nil && sel.Kind() == types.MethodExpr {
+				// method expression T.M: a function whose first argument is the receiver
+				inner := fn
+				return []Value{&Stub{Name: core.ObjName(inner), Fn: func(in *Interp, args []Value) ([]Value, error) {
+					if len(args) == 0 {
+						return nil, &Unsupported{What: "method expression called without a receiver"}
+					}
+					v := in.funcValue(inner, args[0])
+					if v == nil {
+						return nil, &Unsupported{What: "method expression " + core.ObjName(inner) + " cannot be resolved"}
+					}
+					return in.CallValue(v, args[1:])
+				}}}, nil
 			} else if sel == nil {
 				if v := f.in.funcValue(fn, nil); v != nil {
 					return []Value{v}, nil
@@ -2165,7 +2178,9 @@ func (f *frame) compositeLit(e *ast.CompositeLit) (Value, error) {
 	t := f.info.TypeOf(e)
 	st, ok := t.Underlying().(*types.Struct)
 	if !ok {
-		if _, isSlice := t.Underlying().(*types.Slice); isSlice {
+		_, isArray := t.Underlying().(*types.Array)
+		if _, isSlice := t.Underlying().(*types.Slice); isSlice || isArray {
+			// (an array literal is modelled as a slice of fixed length: the analysed code only reads such tables)
 			var elems []Value
 			for _, el := range e.Elts {
 				v, err := f.expr(el)
